@@ -140,25 +140,49 @@ Inductive step_rel (G : config) (s : state) (o : op) (s' : state) : Prop :=
     s_log s' = new_entries G (s_heap s') P (o_p o) c' emit ++ s_log s ->
     step_rel G s o s'.
 
+(* the announce region, for any listener list *)
+Lemma ann_region_spec G ks P o inp s :
+  match nth_error (s_cells s) (o_p o) with
+  | None => exists s', ann_region G ks P o inp s = (s', [], None) /\
+              s_cells s' = s_cells s /\ s_heap s' = s_heap s /\ s_log s' = s_log s
+  | Some c => exists ts c' emit s', funnel P c inp (o_cx o) ts = (c', emit) /\
+       s_cells s' = set_nth (o_p o) c' (s_cells s) /\ s_heap s' = s_heap s /\ s_log s' = s_log s /\
+       ann_region G ks P o inp s =
+         (s', (if emit && exported P then ks else []),
+          (if emit && exported P then Some (render G (s_heap s) P (o_p o) c') else None))
+  end.
+Proof.
+  unfold ann_region.
+  set (s2 := if Z.eqb (explicit_ts o) 0 then tick s (o_dt o) else s).
+  set (ts := if Z.eqb (explicit_ts o) 0 then s_now s2 else explicit_ts o).
+  assert (C2 : s_cells s2 = s_cells s) by (unfold s2; destruct (Z.eqb _ _); reflexivity).
+  assert (L2 : s_log s2 = s_log s) by (unfold s2; destruct (Z.eqb _ _); reflexivity).
+  assert (H2 : s_heap s2 = s_heap s) by (unfold s2; destruct (Z.eqb _ _); reflexivity).
+  unfold apply_funnel_with. rewrite C2.
+  destruct (nth_error (s_cells s) (o_p o)) as [c|] eqn:EC.
+  - destruct (funnel P c inp (o_cx o) ts) as [c' emit] eqn:EF.
+    exists ts, c', emit. rewrite H2.
+    exists {| s_cells := set_nth (o_p o) c' (s_cells s); s_heap := s_heap s; s_now := s_now s2; s_log := s_log s2 |}.
+    split; [exact EF|]. simpl. repeat split; auto. destruct (emit && exported P); reflexivity.
+  - exists s2. repeat split; auto.
+Qed.
+
 Lemma step_is_rel G s o : step_rel G s o (step G s o).
 Proof.
   unfold step. destruct (nth_error (g_params G) (o_p o)) as [P|] eqn:EP; [|apply sr_silent; auto].
   destruct (pre P (s_heap s) o) as [h1 [inp|]] eqn:Epre; [|apply sr_silent; auto].
-  set (s2 := if Z.eqb (explicit_ts o) 0 then tick (set_heap s h1) (o_dt o) else set_heap s h1).
-  set (ts := if Z.eqb (explicit_ts o) 0 then s_now s2 else explicit_ts o).
-  assert (C2 : s_cells s2 = s_cells s) by (unfold s2; destruct (Z.eqb _ _); reflexivity).
-  assert (L2 : s_log s2 = s_log s) by (unfold s2; destruct (Z.eqb _ _); reflexivity).
-  assert (H2 : s_heap s2 = h1) by (unfold s2; destruct (Z.eqb _ _); reflexivity).
-  unfold apply_funnel. rewrite C2.
+  unfold ann_atomic.
+  pose proof (ann_region_spec G (listeners G (o_p o)) P o inp (set_heap s h1)) as R.
+  change (s_cells (set_heap s h1)) with (s_cells s) in R.
   destruct (nth_error (s_cells s) (o_p o)) as [c|] eqn:EC.
-  2:{ apply sr_silent; simpl; auto. }
-  destruct (funnel P c inp (o_cx o) ts) as [c' emit] eqn:EF.
+  2:{ destruct R as (s' & -> & A & B & C). apply sr_silent; simpl; auto. }
+  destruct R as (ts & c' & emit & s' & EF & A & B & C & ->).
   destruct (emit && exported P) eqn:EE.
-  - match goal with |- step_rel _ _ _ (deliver_all ?a ?b ?m) => destruct (deliver_all_spec a b m) as (A & B & C & D) end.
-    apply (sr_funnel G s o _ P c c' emit inp ts); auto.
-    etransitivity; [exact D|]. rewrite B. simpl. unfold new_entries. rewrite EE, L2. reflexivity.
+  - match goal with |- step_rel _ _ _ (deliver_all ?a ?b ?m) => destruct (deliver_all_spec a b m) as (A' & B' & C' & D') end.
+    apply (sr_funnel G s o _ P c c' emit inp ts); auto; try congruence.
+    etransitivity; [exact D'|]. rewrite B', B. simpl. unfold new_entries. rewrite EE, C. reflexivity.
   - apply (sr_funnel G s o _ P c c' emit inp ts); auto.
-    simpl. unfold new_entries. rewrite EE. simpl; congruence.
+    unfold new_entries. rewrite EE. simpl. exact C.
 Qed.
 
 Lemma covers_exported G sc p P : covers G sc p = true -> nth_error (g_params G) p = Some P -> exported P = true.
